@@ -32,7 +32,13 @@ def configs(tier):
         dict(name="timers + sock ready in the same poll batch", sample=n,
              over=dict(base, Kinds=["sock"], NT=2, MaxTick=2, Cmds={"read", "tonce", "tcancel", "tclose"},
                        Envs={"send", "tick"}, MaxCmds=mc, MaxOps=2)),
+        dict(name="a callback closes its timer, creates the successor (which gets the released descriptor number) and schedules it", sample=n,
+             over=dict(base, Kinds=[], NT=2, LateT={2}, MaxTick=2, Envs={"tick"}, HBudget=3,
+                       Cmds={"tonce", "tclose", "tnew"} if q else {"tonce", "trep", "tclose", "tnew"}, MaxCmds=6 if q else 7)),
     ] + ([] if q else [
+        dict(name="timer and conn replaced inside handlers", sample=n,
+             over=dict(base, Kinds=["sock", "sock"], Late={2}, NT=2, LateT={2}, MaxTick=2, MaxOps=2,
+                       Cmds={"read", "close", "open", "tonce", "tclose", "tnew"}, Envs={"send", "tick"}, MaxCmds=7, HBudget=3)),
         dict(name="random long timer scenarios", sim=2000,
              over=dict(base, Kinds=["sock", "pipeR"], NT=3, MaxTick=8, MaxOps=8, MaxCmds=22, HBudget=2,
                        Cmds={"read", "cancel", "close", "tonce", "trep", "tcancel", "tclose"}, Envs={"send", "peerclose", "tick"})),
